@@ -114,3 +114,46 @@ fn seq_model(a: usize, b: usize, cur: i32, a_first: bool) -> (bool, bool, String
     }
     (ok[0], ok[1], val, ver)
 }
+
+/// a client write racing a snapshot of the same database (the snapshot is itself requested by a client command and runs on the
+/// declutter thread): the snapshot clones the keys to store, writes them and then marks them as persisted in memory; a write
+/// acknowledged while it runs must not be lost - neither from memory nor, after the next snapshot and a restart, from disk.
+/// All interleavings at lock-acquisition granularity.
+pub fn c02_snapshot_race() {
+    use crate::disk_ops::snapshot_all_pendding_dbs;
+    // storage strategy: 0 disk (default), 1 s3, 2 s3_patition with one partition (C18 runs the same race over the S3 stub)
+    let strategy = vsym::param("strategy", 0);
+    if strategy != 0 { unsafe { vstd::vfs::ENV.push(("NUN_STORAGE_STRATEGY", if strategy == 1 { "s3" } else { "s3_patition" })); vstd::vfs::ENV.push(("NUN_S3_NUMBER_OF_PARTITIONS", "1")); } }
+    let n = mk_primary();
+    mk_db(&n.dbs, "d", "none");
+    let (mut admin, mut arx) = admin_client(&n.dbs);
+    process_request("use-db d tok", &n.dbs, &mut admin);
+    let pre = vsym::choice("pre-state", 3);     // 0: k persisted and unchanged (Ok), 1: k persisted then updated (Updated), 2: k never persisted (New)
+    vsym::tag_i("pre-state", pre as i64);
+    if pre <= 1 { process_request("set k v0", &n.dbs, &mut admin); process_request("snapshot false", &n.dbs, &mut admin); snapshot_all_pendding_dbs(&n.dbs); }
+    if pre >= 1 { process_request("set k v1", &n.dbs, &mut admin); }
+    let reclaim = vsym::any_bool("reclaim");
+    vsym::tag(if reclaim { "snapshot-true" } else { "snapshot-false" });
+    vsym::assume(is_ok(&process_request(if reclaim { "snapshot true" } else { "snapshot false" }, &n.dbs, &mut admin)));
+    let before = peek(&n.dbs, "d", "k");
+    let (mut c, _rx) = db_client(&n.dbs, "d");
+    quiet_client(&c); quiet_node(&n.dbs);
+    let d1 = n.dbs.clone(); let d2 = n.dbs.clone();
+    // (the S3 strategies load tombstones as live keys - recorded under C18 - so the remove variant is for the disk strategy)
+    let removes = if strategy == 0 { vsym::any_bool("client-removes") } else { false };
+    vsym::tag(if removes { "client-removes" } else { "client-writes" });
+    let t1 = vsym::spawn(move || is_ok(&process_request(if removes { "remove k" } else { "set k w" }, &d1, &mut c)));
+    let t2 = vsym::spawn(move || { snapshot_all_pendding_dbs(&d2); true });
+    let acked = vsym::join(t1); vsym::join(t2);
+    vsym::check("snapshot-race.write-acknowledged", acked);
+    let (mut r, mut rrx) = db_client(&n.dbs, "d");
+    let seen = match process_request("get k", &n.dbs, &mut r) { Response::Value { key: _, value, version: _ } => value, _ => String::from("?") };
+    vsym::check("snapshot-race.acknowledged-write-survives-in-memory", seen == (if removes { "<Empty>" } else { "w" }));
+    if !removes { if let Some(b) = &before { vsym::check("snapshot-race.version-not-reverted", peek(&n.dbs, "d", "k").unwrap().version > b.version); } }
+    // the next snapshot must pick the write up: restart and read
+    process_request(if strategy == 1 { "snapshot true" } else { "snapshot false" }, &n.dbs, &mut admin); snapshot_all_pendding_dbs(&n.dbs);
+    let n2 = restart_node("n1");
+    let live = match peek(&n2.dbs, "d", "k") { Some(g) => if g.state != ValueStatus::Deleted { Some(g.value.clone()) } else { None }, None => None };
+    vsym::check("snapshot-race.acknowledged-write-on-disk-after-next-snapshot", if removes { live.is_none() } else { live == Some(String::from("w")) });
+    vsym::cover("snapshot-race.done", true);
+}
